@@ -184,8 +184,9 @@ spec("twins",
      os=["linux"], services=["ssh"], processes=["tomcat"],
      hosts={(1, 0): H("linux", ["ssh"], ["tomcat"]), (1, 1): H("linux", ["ssh"], ["tomcat"]),
             (2, 0): H("linux", ["ssh"], ["tomcat"])},
-     exploits={"e_ssh": E("ssh", "linux", 0.9, 1, U)},
-     privescs={"pe_tomcat": P("tomcat", "linux", 1.0, 1, R)},
+     # e_never: probability exactly 0 (accepted by the format): never succeeds, whatever the action space
+     exploits={"e_ssh": E("ssh", "linux", 0.9, 1, U), "e_never": E("ssh", None, 0.0, 1, R)},
+     privescs={"pe_tomcat": P("tomcat", "linux", 1.0, 1, R), "pe_never": P("tomcat", None, 0, 1, R)},
      fw={(0, 1): ["ssh"], (1, 0): [], (1, 2): ["ssh"], (2, 1): ["ssh"]},
      sens={(1, 0): 7, (2, 0): 3})
 
